@@ -118,7 +118,7 @@ CHECKS["C11"] = {
          "summarise": SCAN_SUMMARISE, "cover": ["served"]},
         {"name": "wirelines", "pkg": "internal/session", "pkgname": "session", "entry": "VerifC11WireLines", "files": ["zz_verif_c18.go", "zz_verif_c18b.go", "zz_verif_c11wire.go"],
          "with": ["state_export", "backend_export", "verifdb"], "goroutines": True, "concrete_time": True, "replay_timeout_s": 60,
-         "params": {"quick": grid(m=[1, 2]), "thorough": grid(m=[3, 4])},
+         "params": {"quick": grid(m=[1, 2, 3]), "thorough": grid(m=[4, 5])},
          "cover": ["lines-served"]},
         {"name": "nesting", "pkg": "imap/command", "pkgname": "command", "entry": "VerifC11Nesting", "files": ["zz_verif_c11.go", "zz_verif_reader.go"],
          "params": {"quick": grid(unit=[0, 1, 2], k=[64], amplify=[8000000]), "thorough": grid(unit=[0, 1, 2], k=[64, 128], amplify=[8000000])},
@@ -456,7 +456,7 @@ CHECKS["C18"] = {
          "params": {"quick": grid(n=[1, 2]), "thorough": grid(n=[3])}, "cover": ["uri-parsed"]},
         {"name": "wirelines", "pkg": "internal/session", "pkgname": "session", "entry": "VerifC11WireLines", "files": ["zz_verif_c18.go", "zz_verif_c18b.go", "zz_verif_c11wire.go"],
          "with": ["state_export", "backend_export", "verifdb"], "goroutines": True, "concrete_time": True, "replay_timeout_s": 60,
-         "params": {"quick": grid(m=[1, 2]), "thorough": grid(m=[3, 4])},
+         "params": {"quick": grid(m=[1, 2, 3]), "thorough": grid(m=[4, 5])},
          "cover": ["lines-served"]},
     ],
     "stubs": ["connector.Connector stub (Authorize returns a chosen answer)", "time.AfterFunc -> recorded, never fired", "sync.WaitGroup / Mutex -> single-goroutine model (Wait on a non-zero group = BLOCKED)", "profiling / observability / reporter / logrus -> no-op"],
